@@ -1,55 +1,175 @@
 (** C01 — calendar, ordinal, ISO-week and day-count forms of a date agree.
-    Property theorems only: each is closed by [exact] of a lemma from Proofs/Date.v (which builds
-    on Proofs/C08*.v) or Proofs/Gregorian.v and followed by [Print Assumptions].  The model
-    functions are the line-by-line transcription of src/naive/internals.rs, src/naive/date/mod.rs
-    and src/naive/isoweek.rs in Model/Date.v; the oracle is the proleptic Gregorian calendar of
-    Spec/Gregorian.v (leap rule, month lengths, ISO week rule).
-    [repr y o d]: the word [d] is the packed date of year [y] (in -262143..=262142) and ordinal [o]
-    (1..=length of year y) with that year's flags, [mkdate y o].  [date_if b d] is [Some d] when
-    [b] holds and [None] otherwise; [date_of_dn n] is the packed date of day number [n]. *)
+    Property theorems only: each is closed by [exact] of a lemma from Proofs/ (Proofs/C01.v,
+    Proofs/Date.v, Proofs/DateIso.v, Proofs/Gregorian*.v, which build on Proofs/C08*.v) and followed
+    by [Print Assumptions].  The model functions are the line-by-line transcription of
+    src/naive/internals.rs, src/naive/date/mod.rs, src/naive/isoweek.rs and the provided method
+    [Datelike::num_days_from_ce] of src/traits.rs (Model/Date.v, Model/C01.v), with trapping integer
+    arithmetic ([Val] / [Panic]); the oracle is the proleptic Gregorian calendar of Spec/Gregorian.v
+    (leap rule, month lengths, ISO week rule: the week's Thursday decides the year).
+
+    Vocabulary.  [repr y o d]: the word [d] is the packed date [mkdate y o] of a year [y] in
+    -262143..=262142 and an ordinal [o] in 1..=length of year [y], carrying that year's flags (the
+    "valid date" of DESIGN.md 5 C01; the canonical case encoding of a date is exactly (y, o)).
+    [date_if b d] = [Some d] if [b] else [None].  [date_of_dn n] = the packed date of day number
+    [n].  [mk_ymd y m dd] = [mkdate y (ordinal_of_md (is_leap y) m dd)].  Every theorem is stated
+    for ALL arguments of the Rust types; each says [= Val ...], so no operation traps. *)
 From Coq Require Import ZArith List Bool.
-From V Require Import Base.Int Base.Table Gen.DateTables Model.Date Spec.Gregorian Proofs.Date.
+From V Require Import Base.Int Base.IO Base.Table Gen.DateTables Model.Date Model.C01 Spec.Gregorian Proofs.C01.
+Import ListNotations.
 Open Scope Z_scope.
 
-(* 1. year-month-day constructor, every i32/u32 argument: the date exactly when the fields denote one in range *)
+(** ** 1-4. The four constructors: the date exactly when the fields denote one inside the range *)
 Theorem C01_from_ymd_opt : forall y m dd, in_i32 y = true -> in_u32 m = true -> in_u32 dd = true ->
   from_ymd_opt y m dd = Val (date_if (year_in_range y && valid_ymd y m dd) (mk_ymd y m dd)).
 Proof. exact from_ymd_opt_spec. Qed.
 Print Assumptions C01_from_ymd_opt.
 
-(* 2. year-ordinal constructor *)
 Theorem C01_from_yo_opt : forall y o, in_i32 y = true -> in_u32 o = true ->
   from_yo_opt y o = Val (date_if (year_in_range y && valid_yo y o) (mkdate y o)).
 Proof. exact from_yo_opt_spec. Qed.
 Print Assumptions C01_from_yo_opt.
 
-(* 4. day-number constructor, every i32 argument *)
+(* all seven weekdays, every i32 year (the year - 1 / year + 1 spill included), every u32 week *)
+Theorem C01_from_isoywd_opt : forall y w wd, in_i32 y = true -> in_u32 w = true -> 0 <= wd <= 6 ->
+  from_isoywd_opt y w wd =
+    Val (date_if (valid_isoywd y w wd && dn_in_range (dn_of_isoywd y w wd)) (date_of_dn (dn_of_isoywd y w wd))).
+Proof. exact from_isoywd_opt_spec. Qed.
+Print Assumptions C01_from_isoywd_opt.
+
 Theorem C01_from_num_days_from_ce_opt : forall n, in_i32 n = true ->
   from_num_days_from_ce_opt n = Val (date_if (dn_in_range n) (date_of_dn n)).
 Proof. exact from_num_days_from_ce_opt_spec. Qed.
 Print Assumptions C01_from_num_days_from_ce_opt.
 
+(* the words the constructors return are valid dates with the right fields *)
 Theorem C01_date_of_dn_repr : forall n, dn_in_range n = true ->
   repr (fst (yo_of_dn n)) (snd (yo_of_dn n)) (date_of_dn n).
 Proof. exact date_of_dn_repr. Qed.
 Print Assumptions C01_date_of_dn_repr.
 
-(* 5. accessors *)
+Theorem C01_mk_ymd_repr : forall y m dd, year_in_range y = true -> valid_ymd y m dd = true ->
+  repr y (ordinal_of_md (is_leap y) m dd) (mk_ymd y m dd) /\
+  md_of_ordinal (is_leap y) (ordinal_of_md (is_leap y) m dd) = (m, dd).
+Proof. exact mk_ymd_repr. Qed.
+Print Assumptions C01_mk_ymd_repr.
+
+(** ** 5. Accessors of a valid date equal the calendar's functions of its day number *)
+Theorem C01_accessors : forall y o d, repr y o d -> d_acc d = Val (spec_acc y o).
+Proof. exact accessors_spec. Qed.
+Print Assumptions C01_accessors.
+
 Theorem C01_num_days_from_ce : forall y o d, repr y o d -> num_days_from_ce d = Val (dn_of_yo y o).
 Proof. exact num_days_from_ce_spec. Qed.
 Print Assumptions C01_num_days_from_ce.
+
+Theorem C01_datelike_num_days_from_ce : forall y o, year_in_range y = true -> 1 <= o <= 366 ->
+  datelike_num_days_from_ce y o = Val (dn_of_yo y o).
+Proof. exact datelike_num_days_from_ce_spec. Qed.
+Print Assumptions C01_datelike_num_days_from_ce.
 
 Theorem C01_weekday : forall y o d, repr y o d -> d_weekday d = Val (weekday_of_dn (dn_of_yo y o)).
 Proof. exact d_weekday_spec. Qed.
 Print Assumptions C01_weekday.
 
-(* 8. successor / predecessor: the neighbouring day number, refused exactly at the range ends *)
+Theorem C01_iso_week : forall y o d, repr y o d ->
+  let iw := iso_of_dn (dn_of_yo y o) in
+  d_iso_week d = Val (mkweek (fst iw) (snd iw)) /\
+  iw_year (mkweek (fst iw) (snd iw)) = fst iw /\ iw_week (mkweek (fst iw) (snd iw)) = snd iw.
+Proof. exact d_iso_week_spec. Qed.
+Print Assumptions C01_iso_week.
+
+(** ** 6. The forms are in bijection with the day numbers DN_MIN..DN_MAX (191,491,529 of them) *)
+Theorem C01_dn_onto : forall n, dn_in_range n = true ->
+  exists y o d, repr y o d /\ dn_of_yo y o = n /\ from_num_days_from_ce_opt n = Val (Some d).
+Proof. exact dn_onto. Qed.
+Print Assumptions C01_dn_onto.
+
+Theorem C01_dn_injective : forall y1 o1 d1 y2 o2 d2, repr y1 o1 d1 -> repr y2 o2 d2 ->
+  dn_of_yo y1 o1 = dn_of_yo y2 o2 -> d1 = d2.
+Proof. exact date_word_inj. Qed.
+Print Assumptions C01_dn_injective.
+
+Theorem C01_dn_in_range : forall y o d, repr y o d -> dn_in_range (dn_of_yo y o) = true.
+Proof. exact repr_dn_in_range. Qed.
+Print Assumptions C01_dn_in_range.
+
+Theorem C01_count : DN_MAX - DN_MIN + 1 = 191491529.
+Proof. exact dn_count. Qed.
+Print Assumptions C01_count.
+
+(* year-ordinal form: exactly one per day number *)
+Theorem C01_yo_form : forall n,
+  valid_yo (fst (yo_of_dn n)) (snd (yo_of_dn n)) = true /\ dn_of_yo (fst (yo_of_dn n)) (snd (yo_of_dn n)) = n.
+Proof. exact yo_of_dn_valid. Qed.
+Print Assumptions C01_yo_form.
+Theorem C01_yo_unique : forall y o y' o', valid_yo y o = true -> valid_yo y' o' = true ->
+  dn_of_yo y o = dn_of_yo y' o' -> y = y' /\ o = o'.
+Proof. exact dn_inj. Qed.
+Print Assumptions C01_yo_unique.
+
+(* year-month-day form *)
+Theorem C01_ymd_form : forall n,
+  let '(y, m, d) := ymd_of_dn n in valid_ymd y m d = true /\ dn_of_ymd y m d = n.
+Proof. exact ymd_of_dn_valid. Qed.
+Print Assumptions C01_ymd_form.
+Theorem C01_ymd_unique : forall y m d y' m' d', valid_ymd y m d = true -> valid_ymd y' m' d' = true ->
+  dn_of_ymd y m d = dn_of_ymd y' m' d' -> (y, m, d) = (y', m', d').
+Proof. exact dn_of_ymd_inj. Qed.
+Print Assumptions C01_ymd_unique.
+
+(* ISO week-date form *)
+Theorem C01_iso_form : forall n,
+  valid_isoywd (fst (iso_of_dn n)) (snd (iso_of_dn n)) (weekday_of_dn n) = true /\
+  dn_of_isoywd (fst (iso_of_dn n)) (snd (iso_of_dn n)) (weekday_of_dn n) = n.
+Proof. exact isoywd_of_dn. Qed.
+Print Assumptions C01_iso_form.
+Theorem C01_iso_unique : forall y w wd y' w' wd', valid_isoywd y w wd = true -> valid_isoywd y' w' wd' = true ->
+  dn_of_isoywd y w wd = dn_of_isoywd y' w' wd' -> (y, w, wd) = (y', w', wd').
+Proof. exact dn_of_isoywd_inj. Qed.
+Print Assumptions C01_iso_unique.
+Theorem C01_iso_of_isoywd : forall y w wd, valid_isoywd y w wd = true ->
+  iso_of_dn (dn_of_isoywd y w wd) = (y, w) /\ weekday_of_dn (dn_of_isoywd y w wd) = wd.
+Proof. exact iso_of_isoywd. Qed.
+Print Assumptions C01_iso_of_isoywd.
+
+(** ** 7. Date order is day-number order; ISO weeks compare chronologically *)
+Theorem C01_order : forall y1 o1 d1 y2 o2 d2, repr y1 o1 d1 -> repr y2 o2 d2 ->
+  d_cmp d1 d2 = cmpZ (dn_of_yo y1 o1) (dn_of_yo y2 o2).
+Proof. exact order_spec. Qed.
+Print Assumptions C01_order.
+Theorem C01_order_lt : forall y1 o1 d1 y2 o2 d2, repr y1 o1 d1 -> repr y2 o2 d2 ->
+  (d1 < d2 <-> dn_of_yo y1 o1 < dn_of_yo y2 o2).
+Proof. exact order_lt_iff. Qed.
+Print Assumptions C01_order_lt.
+Theorem C01_iso_week_order : forall y1 o1 d1 y2 o2 d2 w1 w2, repr y1 o1 d1 -> repr y2 o2 d2 ->
+  d_iso_week d1 = Val w1 -> d_iso_week d2 = Val w2 ->
+  iw_cmp w1 w2 = cmp_lex [fst (iso_of_dn (dn_of_yo y1 o1)); snd (iso_of_dn (dn_of_yo y1 o1))]
+                         [fst (iso_of_dn (dn_of_yo y2 o2)); snd (iso_of_dn (dn_of_yo y2 o2))] /\
+  (dn_of_yo y1 o1 <= dn_of_yo y2 o2 -> iw_cmp w1 w2 <> 1).
+Proof. exact iso_week_order. Qed.
+Print Assumptions C01_iso_week_order.
+
+(** ** 8. Successor / predecessor: the neighbouring day number (hence the next / previous
+    weekday), refused exactly at the ends of the range *)
 Theorem C01_succ_opt : forall y o d, repr y o d ->
   succ_opt d = Val (date_if (dn_in_range (dn_of_yo y o + 1)) (date_of_dn (dn_of_yo y o + 1))).
 Proof. exact succ_opt_spec. Qed.
 Print Assumptions C01_succ_opt.
-
 Theorem C01_pred_opt : forall y o d, repr y o d ->
   pred_opt d = Val (date_if (dn_in_range (dn_of_yo y o - 1)) (date_of_dn (dn_of_yo y o - 1))).
 Proof. exact pred_opt_spec. Qed.
 Print Assumptions C01_pred_opt.
+Theorem C01_weekday_succ : forall n, weekday_of_dn (n + 1) = (weekday_of_dn n + 1) mod 7.
+Proof. exact weekday_succ. Qed.
+Print Assumptions C01_weekday_succ.
+Theorem C01_succ_none_iff_max : forall y o d, repr y o d ->
+  (succ_opt d = Val None <-> d = D_MAX) /\ (pred_opt d = Val None <-> d = D_MIN).
+Proof. exact succ_pred_none_iff. Qed.
+Print Assumptions C01_succ_none_iff_max.
+
+(** ** The hypotheses are inhabited: 2024-02-29 *)
+Example C01_example : repr 2024 60 (mkdate 2024 60) /\
+  from_ymd_opt 2024 2 29 = Val (Some (mkdate 2024 60)) /\ dn_of_yo 2024 60 = 738945 /\
+  from_isoywd_opt 2024 9 3 = Val (Some (mkdate 2024 60)).
+Proof. exact example_2024_02_29. Qed.
+Print Assumptions C01_example.
